@@ -203,7 +203,7 @@ func genModel(c *pbt.C) *model {
 		name := fmt.Sprintf("P20-pillar-%d", c.Pick("deleg.pillar", 12))
 		m.delegs = append(m.delegs, &definition.DelegationInfo{Backer: userAddr(di), Name: name})
 	}
-	nLeg := c.Weighted("legacy", 3, 1, 1)
+	nLeg := c.Weighted("legacy", 2, 1, 2, 1)
 	for _, li := range distinct(c, "legacy.key", nLeg, 8) {
 		m.legacy = append(m.legacy, &definition.LegacyPillarEntry{KeyIdHash: synthHash("legacy", li), PillarCount: uint8(c.Int("legacy.count", 1, 3))})
 	}
@@ -215,7 +215,7 @@ func genModel(c *pbt.C) *model {
 		// (owner,id) must be distinct: ids repeat over owners (fi%4) on purpose, owners are made distinct per id below
 	}
 	fixFusionKeys(m.fusions)
-	nSwap := c.Weighted("swaps", 2, 1, 1, 1)
+	nSwap := c.Weighted("swaps", 2, 1, 2, 2)
 	for _, si := range distinct(c, "swap.key", nSwap, 8) {
 		e := &definition.SwapAssets{KeyIdHash: synthHash("swap", si), Znn: new(big.Int), Qsr: new(big.Int)}
 		if c.Bool("swap.nonzero") { // the validator only asks for a zero balance of the contract, entries may promise amounts
